@@ -488,21 +488,21 @@ Proof.
 Qed.
 
 Lemma node_limit_some rq m :
-  node_limit rq = Some m -> exists l, rq_limit rq = Some l /\ l <> 0%Z /\ m = (l + rq_offset rq)%Z.
+  node_limit rq = Some m -> exists l, rq_limit rq = Some l /\ m = (l + rq_offset rq)%Z.
 Proof.
   unfold node_limit. destruct (rq_limit rq) as [l|]; [|discriminate].
-  destruct (Z.eqb_spec l 0); [discriminate|]. intros [= <-]. exists l. repeat split; auto.
+  intros [= <-]. exists l. split; reflexivity.
 Qed.
 
 Lemma node_backend_limit fmt node rq k :
   backend_limit (nreq fmt node rq) = Some k ->
-  exists l, rq_limit rq = Some l /\ l <> 0%Z /\ default_sort_order rq = true /\
+  exists l, rq_limit rq = Some l /\ default_sort_order rq = true /\
             (0 < l + rq_offset rq)%Z /\ k = Z.to_nat (l + rq_offset rq).
 Proof.
   intros B. destruct (backend_limit_some _ _ B) as [m [Hm [Hd [Hpos Hk]]]].
   change (rq_limit (nreq fmt node rq)) with (node_limit rq) in Hm.
   change (rq_offset (nreq fmt node rq)) with 0%Z in Hpos, Hk.
-  destruct (node_limit_some rq m Hm) as [l [Hl [Hl0 ->]]].
+  destruct (node_limit_some rq m Hm) as [l [Hl ->]].
   exists l. repeat split; auto; [lia|]. f_equal. lia.
 Qed.
 
@@ -516,7 +516,7 @@ Proof.
   rewrite spec_hits_per.
   destruct (impl_total_cases (nreq fmt node rq) (per_of schema cfg node rq)) as [H|[k [B Hk]]];
     [left; exact H|right].
-  destruct (node_backend_limit fmt node rq k B) as [l [Hl [_ [_ [_ ->]]]]].
+  destruct (node_backend_limit fmt node rq k B) as [l [Hl [_ [_ ->]]]].
   specialize (Hlim l Hl). lia.
 Qed.
 
@@ -527,7 +527,7 @@ Proof.
   intros Hs H. destruct (node_answer_data schema cfg fmt node rq Hs) as [_ ->].
   rewrite spec_hits_per. apply impl_total_full. destruct H as [->|Hn]; [right; reflexivity|left].
   destruct (backend_limit (nreq fmt node rq)) as [k|] eqn:B; [|reflexivity]. exfalso.
-  destruct (node_backend_limit fmt node rq k B) as [l [Hl [Hl0 [Hd [Hpos _]]]]].
+  destruct (node_backend_limit fmt node rq k B) as [l [Hl [Hd [Hpos _]]]].
   unfold backend_limit in Hn. rewrite Hl, Hd in Hn. cbv zeta in Hn.
   destruct (Z.leb_spec (l + rq_offset rq) 0); [lia|discriminate].
 Qed.
@@ -676,7 +676,6 @@ Section ClusterData.
     intros E Hoff. rewrite (sort_hits_nil rq _ E), (merged_unsorted E), spec_hits_concat.
     unfold nwin, node_limit. destruct (rq_limit rq) as [l|] eqn:Hl.
     - destruct (Z.le_gt_cases l 0) as [H0|H0]; [rewrite !(window_nil_limit rq _ l Hl H0); reflexivity|].
-      destruct (Z.eqb_spec l 0) as [->|_]; [lia|].
       rewrite <- (map_map (fun node => spec_hits schema cfg node rq) (firstn (Z.to_nat (l + rq_offset rq)))).
       apply (window_cut_exact rq l _ _ Hl). lia.
     - reflexivity.
@@ -701,7 +700,7 @@ Section ClusterData.
     intros Hin B. apply backends_sorted_part.
     - unfold nodes. apply in_map_iff. exists (f, node). split; [reflexivity|exact Hin].
     - apply Hsorted. destruct (backend_limit (nreq f node rq)) as [k|] eqn:Bk; [|congruence].
-      destruct (node_backend_limit f node rq k Bk) as [l [Hl [_ [Hd [Hpos _]]]]].
+      destruct (node_backend_limit f node rq k Bk) as [l [Hl [Hd [Hpos _]]]].
       unfold backend_limit. rewrite Hl, Hd. cbv zeta.
       destruct (Z.leb_spec (l + rq_offset rq) 0); [lia|discriminate].
   Qed.
@@ -727,7 +726,7 @@ Section ClusterData.
         apply Forall2_map_same. intros [f node] Hin. cbn [fst snd].
         pose proof (node_hits_Lr schema cfg f node rq Hstats E (node_sorted f node Hin)) as H.
         unfold nreq in H. rewrite window_node in H. unfold node_limit in H. rewrite Hl in H.
-        destruct (Z.eqb_spec l 0) as [->|_]; [lia|]. exact H.
+        exact H.
       + apply Forall2_firstn. apply (isort_perm_eqv (Lr rq) (Lr_total rq) (Lr_trans rq)). exact Hp.
     - apply Forall2_window.
       eapply (eqv_list_trans (Lr rq) (Lr_trans rq)).
